@@ -81,7 +81,7 @@ func XTypeOf(t *yang.YangType) *model.XType {
 	if t == nil {
 		return nil
 	}
-	x := &model.XType{Kind: t.Kind.String(), Name: t.Name, Default: t.Default, HasDefault: t.HasDefault, Units: t.Units, Path: t.Path, Frac: t.FractionDigits, Patterns: len(t.Pattern)}
+	x := &model.XType{Kind: t.Kind.String(), Name: t.Name, Default: t.Default, HasDefault: t.HasDefault, Units: t.Units, Path: t.Path, Frac: t.FractionDigits, Patterns: len(t.Pattern), Posix: len(t.POSIXPattern)}
 	if t.IdentityBase != nil {
 		x.Base = OwnerName(t.IdentityBase) + ":" + t.IdentityBase.Name
 	}
